@@ -17,9 +17,9 @@ RULE = ("Offer kind file/directory with the offered name from a grammar of hosti
         "'sub/x' / existing file / existing directory / absolute path in the sandbox; --accept-file on, or off "
         "with a generated interactive answer; pre-existing object at the would-be destination none / file / "
         "empty dir / non-empty dir / named pipe / dangling symlink; decoy files everywhere else in a sandbox base/outer/cwd incl. base/, "
-        "base/outer/ and a pre-existing <dest>.tmp. Driver: the real Receiver._parse_offer path "
-        "(_handle_file/_handle_directory, _decide_destname, _ask_permission, _transfer_data, _write_file/"
-        "_write_directory/_extract_file) on the real filesystem with a fake wormhole and record pipe. Oracle: "
+        "base/outer/ and a pre-existing <dest>.tmp. Driver: the real cmd_receive.receive(args, reactor) - the whole "
+        "Receiver - on the real filesystem; only the wormhole object and the TransitReceiver class are replaced by "
+        "fakes that script the sender (transit message, offer, data through a record pipe). Oracle: "
         "snapshot (path -> kind, content hash) of the whole sandbox before/after against a reference destination "
         "computed from the statement: every created/modified/removed path is dest, dest+'.tmp' or (directory "
         "mode) beneath dest; no --output-file and dest exists => failure and nothing changed; an existing file is "
@@ -86,14 +86,47 @@ def snapshot(base):
 
 
 class FakeWormhole:
-    def __init__(self):
+    """the public wormhole API as `wormhole receive` uses it; the peer's messages are scripted"""
+    def __init__(self, inbound=()):
         self.sent = []
+        self.inbound = list(inbound)
+        self.closed = 0
 
     def send_message(self, b):
         self.sent.append(b)
 
     def derive_key(self, purpose, length):
         return b"k" * length
+
+    def get_welcome(self):
+        return defer.succeed({})
+
+    def set_code(self, code):
+        self.code = code
+
+    def get_code(self):
+        return defer.succeed(getattr(self, "code", "1-abc"))
+
+    def get_unverified_key(self):
+        return defer.succeed(b"k" * 32)
+
+    def get_verifier(self):
+        return defer.succeed(b"v" * 32)
+
+    def get_versions(self):
+        return defer.succeed({})
+
+    def get_message(self):
+        if self.inbound:
+            return defer.succeed(self.inbound.pop(0))
+        return defer.Deferred()      # the sender says nothing more
+
+    def close(self):
+        self.closed += 1
+        return defer.succeed("happy")
+
+    def debug_set_trace(self, *a, **kw):
+        pass
 
 
 class FakePipe:
@@ -122,8 +155,22 @@ class FakePipe:
 
 
 class FakeTransit:
+    TRANSIT_KEY_LENGTH = 32
+
     def __init__(self, pipe):
         self.pipe = pipe
+
+    def set_transit_key(self, key):
+        pass
+
+    def add_connection_hints(self, hints):
+        pass
+
+    def get_connection_abilities(self):
+        return [{"type": "direct-tcp-v1"}]
+
+    def get_connection_hints(self):
+        return defer.succeed([])
 
     def connect(self):
         return defer.succeed(self.pipe)
@@ -307,19 +354,27 @@ def _run(c, res, base, cmd_receive):
     args.stderr = io.StringIO()
     args.hide_progress = True
     from twisted.internet.task import Clock
-    r = cmd_receive.Receiver(args, reactor=Clock())
-    w = FakeWormhole()
+    import json as _json
+    # the public entry point receive(args, reactor): only the wormhole object (create) and the TransitReceiver
+    # class are replaced, by fakes that script the sender: a transit message, then the offer, then the data
+    args.code = "1-abc"
+    w = FakeWormhole([_json.dumps({"transit": {"abilities-v1": [{"type": "direct-tcp-v1"}], "hints-v1": []}}).encode(),
+                      _json.dumps({"offer": offer}).encode()])
     pipe = FakePipe(data)
-    r._transit_receiver = FakeTransit(pipe)
     outcome = []
     answers = [c["answer"]]
     with mock.patch("builtins.input", lambda prompt="": answers[0]), \
-            mock.patch.object(sys, "stderr", io.StringIO()):
+            mock.patch.object(sys, "stderr", io.StringIO()), \
+            mock.patch.object(cmd_receive, "create", lambda *a, **kw: w), \
+            mock.patch.object(cmd_receive, "TransitReceiver", lambda *a, **kw: FakeTransit(pipe)):
         try:
-            d = r._parse_offer(offer, w)
+            d = cmd_receive.receive(args, reactor=Clock())
             d.addCallbacks(lambda x: outcome.append(("ok", x)), lambda f: outcome.append(("err", f.value)))
         except Exception as ex:
             outcome.append(("err", ex))
+    if outcome and outcome[0][0] == "err" and isinstance(outcome[0][1], (AttributeError, TypeError, NameError)):
+        # the fakes no longer fit the code (harness problem), or the receiver itself is broken: never silently "a failed transfer"
+        raise RuntimeError("C05 driver: receive() failed with %r" % (outcome[0][1],))
     if not outcome:
         outcome.append(("pending", None))
     ok = outcome[0][0] == "ok"
